@@ -35,8 +35,7 @@ type Node struct {
 	stdoutWriter *bufio.Writer
 	stderrFile   *os.File
 	stderrWriter *bufio.Writer
-	outputWriter *os.File
-	outputReader *os.File
+	outputBuf    *bytes.Buffer
 	scriptFile   *os.File
 	done         bool
 }
@@ -130,12 +129,9 @@ func (n *Node) Execute(ctx context.Context) error {
 		return err
 	}
 	n.SetError(cmd.Run())
-	if n.outputReader != nil && n.data.Step.Output != "" {
-		util.LogErr("close pipe writer", n.outputWriter.Close())
-		var buf bytes.Buffer
-		// TODO: Error handling
-		_, _ = io.Copy(&buf, n.outputReader)
-		ret := strings.TrimSpace(buf.String())
+	if n.outputBuf != nil && n.data.Step.Output != "" {
+		// cmd.Run has waited for the copying goroutines: the buffer is complete
+		ret := strings.TrimSpace(n.outputBuf.String())
 		_ = os.Setenv(n.data.Step.Output, ret)
 		n.data.Step.OutputVariables.Store(
 			n.data.Step.Output,
@@ -189,11 +185,10 @@ func (n *Node) setupExec(ctx context.Context) (executor.Executor, error) {
 	}
 
 	if n.data.Step.Output != "" {
-		var err error
-		if n.outputReader, n.outputWriter, err = os.Pipe(); err != nil {
-			return nil, err
-		}
-		stdout = io.MultiWriter(stdout, n.outputWriter)
+		// An in-memory buffer takes any amount of output; a pipe that is only
+		// read after the command has exited blocks the command once it is full.
+		n.outputBuf = &bytes.Buffer{}
+		stdout = io.MultiWriter(stdout, n.outputBuf)
 	}
 
 	cmd.SetStdout(stdout)
